@@ -35,7 +35,12 @@ type SynthOpts struct {
 
 type SynthStats struct {
 	Renames, Deletes, Recreates, MaxChain, IntoSub, OutOfSub, FullPath, Brace, RenameBack int
+	RootIntoDirBrace, DirToRootBrace                                                      int // `{ => cmd}/main.go`, `{src => }/app.go`
+	TwinAuthors                                                                           int // two authors that differ only in letter case
 }
+
+// synthTwins: distinct author names (git compares them byte-wise) that a case-folding key would merge.
+var synthTwins = [][2]string{{"Phodal Huang", "Phodal HUANG"}, {"bob", "Bob"}, {"Ada L", "ada l"}, {"José Álvarez", "JOSÉ ÁLVAREZ"}, {"team-bot", "Team-Bot"}}
 
 var synthAuthors = []string{"Ann Lee", "dev42", "R2 D2", "Phodal Huang", "José Álvarez", "王小明", "bob", "Zoe Q",
 	"Carl von Ossietzky", "m.k", "Ada L", "team-bot", "Ng Wei", "Olu 7"}
@@ -64,6 +69,20 @@ func SynthHistory(r *run.Rand, o SynthOpts) ([]SynthCommit, SynthStats) {
 		authors[i], authors[j] = authors[j], authors[i]
 	}
 	authors = authors[:nAuth]
+	if r.Chance(1, 3) && o.MaxAuthors >= 2 {
+		tw := synthTwins[r.Intn(len(synthTwins))]
+		var rest []string
+		for _, a := range authors {
+			if a != tw[0] && a != tw[1] {
+				rest = append(rest, a)
+			}
+		}
+		if len(rest) > o.MaxAuthors-2 {
+			rest = rest[:o.MaxAuthors-2]
+		}
+		authors = append([]string{tw[0], tw[1]}, rest...)
+		st.TwinAuthors = 1
+	}
 	day := r.Range(0, 300)
 	var live []*sfile
 	var dead []string // paths that existed once and do not now
@@ -245,6 +264,21 @@ func SynthHistory(r *run.Rand, o SynthOpts) ([]SynthCommit, SynthStats) {
 				ch := SynthChange{File: PprintRename(f.path, to), Old: f.path, New: to, Sim: 100}
 				if r.Chance(1, 2) {
 					ch.Added, ch.Deleted, ch.Sim = r.Range(0, 5), r.Range(0, 5), r.Range(50, 99)
+				}
+				// A move between the repository root and a directory: git 2.39 prints it in the full-path form
+				// (`main.go => cmd/main.go`); the brace form with an empty common prefix and one empty side
+				// (`{ => cmd}/main.go`, `{src => }/app.go`) is the same pair in the in-directory notation and is
+				// synthesised for half of these moves (input of the rename decoder only, never expected from git).
+				if dirO, baseO := splitPath(f.path); RenameShape(ch.File) == "full-path" && r.Bool() {
+					dirN, baseN := splitPath(to)
+					switch {
+					case dirO == "" && dirN != "" && baseN == baseO:
+						ch.File = "{ => " + dirN + "}/" + baseO
+						st.RootIntoDirBrace++
+					case dirN == "" && dirO != "" && baseN == baseO:
+						ch.File = "{" + dirO + " => }/" + baseO
+						st.DirToRootBrace++
+					}
 				}
 				switch RenameShape(ch.File) {
 				case "brace-empty-old":
